@@ -25,6 +25,7 @@ type c16File struct {
 	Name      string
 	Data      []byte
 	OwnWriter bool // written by this package's Encode / AnimEncoder / Muxer
+	Limit     bool // well-formed, but sized around an implementation limit: the views may refuse it, all of them or none
 }
 
 // c16Hand builds hand-assembled container variants around a real bitstream.
@@ -153,7 +154,7 @@ func c16Hand(r *rand.Rand, k int) (c16File, bool) {
 func runC16(c *ev.Ctx) {
 	c.Rule = "files from Encode (all kinds), AnimEncoder, Muxer, libwebp, the synthesizers and 16 hand-assembled container variants (VP8X with/without ALPH, empty / opaque / " +
 		"short / compressed ALPH, unknown chunks before/between/after, metadata before/after the image, flags over- and under-stating, trailing bytes, reserved bits, " +
-		"single-frame animation); oracles: Decode's actual result vs DecodeConfig/GetFeatures/image.DecodeConfig/image.Decode; mutual agreement of GetFeatures, DecodeConfig, " +
+		"single-frame animation), 9 animations of 4095..65537 one-pixel frames around any frame-count limit (views accept all or none); oracles: Decode's actual result vs DecodeConfig/GetFeatures/image.DecodeConfig/image.Decode; mutual agreement of GetFeatures, DecodeConfig, " +
 		"Demuxer and animation reader on canvas, animation flag, frame count and (animated only) loop count; distinct = (source kind/variant, codec, alpha, accepted-by set)"
 	var files []c16File
 	r := rng(c, 0)
@@ -186,6 +187,19 @@ func runC16(c *ev.Ctx) {
 			big[i] = byte(i >> 9)
 		}
 		files = append(files, c16File{Name: "hand/metadata-above-limit-after-image", Data: riffWrap(vp8xChunk(0x18, 8, 8), chunk("VP8L", riffChunks(small)["VP8L"]), chunk("EXIF", big))})
+	}
+	{ // animations of very many 1x1 frames: a frame-count limit is an implementation's choice, but all views make the same one
+		p := vp8l.DefaultParams()
+		p.W, p.H = 1, 1
+		bs, _ := vp8l.Synthesize(r, p)
+		anmf := chunk("ANMF", append([]byte{0, 0, 0, 0, 0, 0, 0, 0, 0, 0, 0, 0, 10, 0, 0, 0}, chunk("VP8L", bs)...))
+		for _, n := range []int{4095, 4096, 9999, 10000, 10001, 16384, 65535, 65536, 65537} {
+			parts := [][]byte{vp8xChunk(0x12, 3, 2), chunk("ANIM", []byte{0, 0, 0, 0, 2, 0})}
+			for k := 0; k < n; k++ {
+				parts = append(parts, anmf)
+			}
+			files = append(files, c16File{Name: fmt.Sprintf("hand/many-frames/%d", n), Data: riffWrap(parts...), Limit: true})
+		}
 	}
 	var cases []ev.Case
 	for i, f := range files {
@@ -297,7 +311,12 @@ func c16One(c *ev.Ctx, cs ev.Case) {
 	if aerr == nil {
 		views = append(views, view{"animation", an.CanvasWidth, an.CanvasHeight, len(an.Frames), an.LoopCount, animated})
 	}
-	if strict {
+	if strict && f.Limit {
+		if accepted != "0000" && accepted != "1111" {
+			c.Violate(cs, "views-disagree", attrs("on", "acceptance"), fmt.Sprintf("accepted by [GetFeatures,DecodeConfig,Demuxer,animation] = %s: %v | %v | %v | %v", accepted, ferr, cerr, derr, aerr), rep())
+		}
+		c.Count("limit_file_accepted_by:"+accepted, 1)
+	} else if strict {
 		for i, e := range []error{ferr, cerr, derr, aerr} {
 			if e != nil {
 				who := []string{"GetFeatures", "DecodeConfig", "Demuxer", "animation.DecodeBytes"}[i]
